@@ -18,7 +18,7 @@ from ..harness import driver, servercheck
 
 STATE_INVS = [
     'TypeOK', 'C03_InOrderOnce', 'C03_OnlyAccepted', 'C03_NoLoss', 'C03_Retrievable',
-    'C03_PollingOnlyBeforeUpgrade', 'C04_MessageOnce', 'C05_EventShape',
+    'C04_MessageOnce', 'C05_EventShape',
     'C05_ReasonIsFirstCause', 'C05_ClosedHasDisc', 'C05_RejectedSilent',
     'C06_UpgradingOnlyDuringHandshake', 'C06_NeverBothFlags', 'C06_WsOnlyIfAvailable',
     'C07_PollBounded', 'C07_DetectionBound', 'C16_TableOnlyUsed', 'C16_ReapedInTime',
